@@ -158,10 +158,58 @@ def harness_hash():
 HARNESS_SRCS = None
 
 
-def harness(flavour="base", shared=False, extra_defs=(), tag=""):
-    """Compile imbmon against the given library flavour. Returns path of the binary."""
+def wrap_symbols(libdir):
+    """Global functions defined in NASM objects of the archive and referenced from C objects: the C-to-assembly call
+    edges that M-WRAP monitors (asm-to-asm helpers with private calling conventions are never referenced from C)."""
+    out = subprocess.run(["nm", "-A", os.path.join(libdir, "libIPSec_MB.a")], stdout=subprocess.PIPE, stderr=subprocess.DEVNULL,
+                         text=True).stdout
+    defs, refs = set(), set()
+    for ln in out.splitlines():
+        try:
+            path, rest = ln.rsplit(":", 1)
+        except ValueError:
+            continue
+        obj = path.split(":")[-1]
+        f = rest.split()
+        if len(f) == 3 and f[1] == "T" and obj.endswith(".asm.o"):
+            defs.add(f[2])
+        elif len(f) == 2 and f[0] == "U" and not obj.endswith(".asm.o"):
+            refs.add(f[1])
+    return sorted(defs & refs)
+
+
+def _gen_wraps(libdir, outdir):
+    syms = wrap_symbols(libdir)
+    s = [".intel_syntax noprefix", ".text"]
+    for x in syms:
+        s += [".globl __wrap_%s" % x, ".type __wrap_%s,@function" % x, "__wrap_%s:" % x,
+              "        lock inc qword ptr [rip + .Lc_%s]" % x,
+              "        lea r11, [rip + .Ln_%s]" % x, "        lea r10, [rip + __real_%s]" % x, "        jmp imbv_wrap_common"]
+    s += [".section .rodata"]
+    for x in syms:
+        s += [".Ln_%s: .asciz \"%s\"" % (x, x)]
+    s += [".data", ".align 8", ".globl imbv_wrap_table", "imbv_wrap_table:"]
+    for x in syms:
+        s += ["        .quad .Ln_%s, .Lc_%s" % (x, x)]
+    s += ["        .quad 0, 0", ".bss", ".align 8"]
+    for x in syms:
+        s += [".Lc_%s: .zero 8" % x]
+    s += [".section .note.GNU-stack,\"\",@progbits", ""]
+    asm = os.path.join(outdir, "wraps_gen.S")
+    open(asm, "w").write("\n".join(s))
+    rsp = os.path.join(outdir, "wraps.rsp")
+    open(rsp, "w").write("\n".join("-Wl,--wrap=%s" % x for x in syms) + "\n")
+    return asm, rsp, len(syms)
+
+
+def harness(flavour="base", shared=False, extra_defs=(), tag="", wrap=False):
+    """Compile imbmon against the given library flavour. Returns path of the binary.
+    wrap=True: M-WRAP build (static only): every C-to-assembly call inside the library goes through a monitoring thunk."""
     libdir = lib(flavour)
     hh = harness_hash()
+    if wrap:
+        tag = tag + "-wrap"
+        shared = False
     name = "imbmon-%s%s%s-%s" % (flavour, "-so" if shared else "", tag, hh)
     outbin = os.path.join(libdir, name)
     lockf = open(os.path.join(CACHE, "locks", os.path.basename(libdir) + name + ".lock"), "w")
@@ -201,6 +249,13 @@ def harness(flavour="base", shared=False, extra_defs=(), tag=""):
             ld = ["-L" + libdir, "-lIPSec_MB", "-Wl,-rpath," + libdir]
         else:
             ld = [os.path.join(libdir, "libIPSec_MB.a")]
+        if wrap:
+            wdir = os.path.join(libdir, "wrapgen")
+            os.makedirs(wdir, exist_ok=True)
+            wasm, wrsp, nw = _gen_wraps(libdir, wdir)
+            srcs.append(wasm)
+            ld.append("@" + wrsp)
+            cflags.append("-DIMBV_WRAP=%d" % nw)
         tmp = outbin + ".tmp%d" % os.getpid()
         cmd = ["gcc"] + cflags + ["-o", tmp] + srcs + ld + ["-lcrypto", "-ldl", "-lm", "-no-pie" if not shared and flavour == "base" else "-pie"]
         log = os.path.join(libdir, "harness-build.log")
